@@ -61,6 +61,18 @@ WITNESSES['silenced_flags_do_not_outlive_the_command'] = (2, [
     ('cmd', 2, ('store', [3], False, 'add', [5], False)),
 ])
 
+WITNESSES['partial_reexpunge_of_a_group'] = (3, [
+    # regression scenario (no defect on the current tree): one EXPUNGE writes one log record
+    # for UIDs 101 and 102; session 2, not yet synchronized, expunges 101 again; 102 must still
+    # be reported to sessions 2 and 3
+    ('cmd', 1, ('select', 1, False)), ('cmd', 1, LEARN),
+    ('cmd', 2, ('select', 1, False)), ('cmd', 2, LEARN),
+    ('cmd', 3, ('select', 1, False)), ('cmd', 3, LEARN),
+    ('cmd', 1, ('store', [(1, 2)], False, 'add', [2], False)),
+    ('cmd', 1, ('expunge', None)),
+    ('cmd', 2, ('expunge', [101])),
+])
+
 WEIGHTS = {'store': 24, 'expunge': 14, 'uidexpunge': 6, 'move': 10, 'copy': 4, 'append': 8,
            'fetch': 8, 'search': 3, 'noop': 6, 'check': 2, 'touch': 1, 'close': 1, 'idle': 2,
            'select': 2, 'deliver': 2}
@@ -78,7 +90,7 @@ def section_random(ctx, clauses) -> None:
                     boxes=(1,) if rng.random() < 0.75 else (1, 2),
                     readonly_sessions=(3,) if rng.random() < 0.3 else (),
                     checkpoint_every=rng.choice([2, 3, 5]), weights=WEIGHTS,
-                    flipflop=rng.choice([0.0, 0.4, 0.7]))
+                    flipflop=rng.choice([0.0, 0.4, 0.7]), group=rng.choice([0.0, 0.1, 0.2]))
         trace, mon = SC.run_sync(SC.monitored_random_trace(rng, **prof))
         checkpoints += mon.n_checkpoints
         compared += mon.n_compared
